@@ -305,13 +305,27 @@ func flatten(v Val, out []*Term) []*Term {
 	return nil
 }
 
-var fnIDs = map[*ssa.Function]int{}
+// Function values get one id per closure instance (function + bindings); closureByID lets a
+// specification call a function value that was merged into an ite-tree of such ids.
+var fnIDs = map[*FuncVal]int{}
+var plainFnIDs = map[*ssa.Function]int{}
+var closureByID = map[int]*FuncVal{}
 
 func funcValPtr(f *FuncVal) *Term {
-	id, ok := fnIDs[f.Fn]
+	if len(f.Bindings) == 0 {
+		id, ok := plainFnIDs[f.Fn]
+		if !ok {
+			id = len(closureByID) + 1
+			plainFnIDs[f.Fn] = id
+			closureByID[id] = f
+		}
+		return FnPtr(id)
+	}
+	id, ok := fnIDs[f]
 	if !ok {
-		id = len(fnIDs) + 1
-		fnIDs[f.Fn] = id
+		id = len(closureByID) + 1
+		fnIDs[f] = id
+		closureByID[id] = f
 	}
 	return FnPtr(id)
 }
